@@ -243,6 +243,16 @@ pub fn plan(prop: &str, tier: &str) -> Option<Plan> {
             }
             let bq = if quick { 2 } else { 3 };
             b.add("cell/concurrent", if quick { few } else { all }, &[&[("prog", 0)], &[("prog", 1)], &[("prog", 2)], &[("prog", 3)], &[("prog", 4)]], bq);
+            {
+                // generated family: every pair of programs of k1 + k2 operations over 10 letters
+                use crate::scen::cell::gen_cell_cases as cc;
+                let from = b.units.len();
+                let (k1, k2) = if quick { (1, 2) } else { (2, 2) };
+                for &e0 in (if quick { &[0i64][..] } else { &[0i64, 15][..] }).iter() {
+                    b.add_cases("cell/concurrent", e(e0).set("gen", 1).set("k1", k1).set("k2", k2), cc(k1 as usize, k2 as usize), if quick { 25 } else { 100 });
+                }
+                b.units[from..].iter_mut().for_each(|u| u.bound = 2);
+            }
             rule = "sequential: every sequence of at most d operations over a 27-letter alphabet {load, store v, swap v, compare_exchange(exp,v), compare_exchange_weak, compare_exchange_tag(exp,t), epoch advance} compared step by step with a (pointer, tag) cell model; concurrent: every schedule with at most B preemptions of 2-3 threads x 1-2 operations on one cell, each complete history checked for linearizability by brute force; counts exact at quiescence";
             bounds = json!({"depth": depth, "alphabet": n, "preemptions": bq});
         }
@@ -254,6 +264,15 @@ pub fn plan(prop: &str, tier: &str) -> Option<Plan> {
             }
             let bq = if quick { 2 } else { 3 };
             b.add("cell/wconcurrent", if quick { few } else { all }, &[&[("prog", 0)], &[("prog", 1)], &[("prog", 2)], &[("prog", 3)]], bq);
+            {
+                use crate::scen::cell::gen_cell_cases as cc;
+                let from = b.units.len();
+                let (k1, k2) = if quick { (1, 2) } else { (2, 2) };
+                for &e0 in (if quick { &[0i64][..] } else { &[0i64, 15][..] }).iter() {
+                    b.add_cases("cell/wconcurrent", e(e0).set("gen", 1).set("k1", k1).set("k2", k2), cc(k1 as usize, k2 as usize), if quick { 25 } else { 100 });
+                }
+                b.units[from..].iter_mut().for_each(|u| u.bound = 2);
+            }
             rule = "as C08 for AtomicWeak, the expected WeakSnapshot obtained in three ways (from the cell, downgraded from a Snapshot loaded from an AtomicRc written at another epoch, taken from a Weak made from an Rc that came out of a swap)";
             bounds = json!({"depth": depth, "alphabet": n, "preemptions": bq});
         }
@@ -354,6 +373,21 @@ pub fn plan(prop: &str, tier: &str) -> Option<Plan> {
                     b.add("ebr/queue", &[0], &[&[("prog", pr), ("classes", sched::EBR as i64)]], 2);
                 }
             }
+            // generated family: every pair of 2-operation programs over 5 letters x 4 initial queues
+            {
+                use crate::scen::ebr::gen_queue_cases as qc;
+                let mut from = b.units.len();
+                b.add_cases("ebr/queue", e(0).set("gen", 1).set("threads", 2).set("k", 2), qc(2, 2), 50);
+                b.units[from..].iter_mut().for_each(|u| u.bound = 2);
+                if !quick {
+                    from = b.units.len();
+                    b.add_cases("ebr/queue", e(0).set("gen", 1).set("threads", 2).set("k", 3), qc(2, 3), 250);
+                    b.units[from..].iter_mut().for_each(|u| u.bound = 2);
+                    from = b.units.len();
+                    b.add_cases("ebr/queue", e(0).set("gen", 1).set("threads", 3).set("k", 2), qc(3, 2), 250);
+                    b.units[from..].iter_mut().for_each(|u| u.bound = 1);
+                }
+            }
             b.goal("ebr/queue", "history-checked");
             b.goal("ebr/queue", "empty-pop");
             rule = "every schedule with at most B preemptions (at every access of a queue pointer) of 9 programs of 2-3 threads x 1-2 operations over {push v, try_pop, try_pop_if(even), try_pop_if(<2)} on an empty / one-element / two-element queue; every complete history checked for linearizability against a FIFO with conditional pop by brute force";
@@ -365,6 +399,20 @@ pub fn plan(prop: &str, tier: &str) -> Option<Plan> {
                 b.add("ebr/list", &[0], &[&[("prog", pr)]], bq);
             }
             b.add_sliced("ebr/sections", &[0], &[&[("prog", 4), ("bag", 64), ("claim", 18)]], 2, 4);
+            {
+                use crate::scen::ebr::gen_list_cases as lc;
+                let mut from = b.units.len();
+                b.add_cases("ebr/list", e(0).set("gen", 1).set("threads", 2).set("k", 2), lc(2, 2), 24);
+                b.units[from..].iter_mut().for_each(|u| u.bound = 2);
+                if !quick {
+                    from = b.units.len();
+                    b.add_cases("ebr/list", e(0).set("gen", 1).set("threads", 2).set("k", 3), lc(2, 3), 100);
+                    b.units[from..].iter_mut().for_each(|u| u.bound = 2);
+                    from = b.units.len();
+                    b.add_cases("ebr/list", e(0).set("gen", 1).set("threads", 3).set("k", 2), lc(3, 2), 100);
+                    b.units[from..].iter_mut().for_each(|u| u.bound = 2);
+                }
+            }
             b.goal("ebr/list", "traverse-stalled");
             b.goal("ebr/list", "traverse-complete");
             b.goal("ebr/list", "list-finalize");
